@@ -49,6 +49,13 @@ func applyReservedStreamOverrides(s *stream, config *Config) {
 		s.config.AutoPauseTime = &proto.NullableInt64{
 			Value: config.CursorsStream.AutoPauseTime.Milliseconds(),
 		}
+		// Cursors are superseded, never expired: the cursors stream must not
+		// inherit the server-wide retention limits, otherwise retention
+		// deletes the only copy of a cursor that has not been updated for a
+		// while and it reads as unset. Compaction keeps the stream bounded.
+		s.config.RetentionMaxBytes = &proto.NullableInt64{Value: 0}
+		s.config.RetentionMaxMessages = &proto.NullableInt64{Value: 0}
+		s.config.RetentionMaxAge = &proto.NullableInt64{Value: 0}
 	}
 }
 
